@@ -25,7 +25,7 @@ CHECKS = {
     'C13': {
         'engine': 'simdev',
         'technique': 'deterministic simulation: seeded polling schedules over an injected millis() counter, lock-step reference clock model, ddmin replay',
-        'text': 'Seeded search over polling schedules (gaps 1..64536 ms and stalls beyond), start phases, 2^16/2^32 counter wrap, user sets (same value, sentinel), reboots with a durable RTC; every reading of the real SystemClockLoop is compared with the interval-anchor reference clock T+floor((m-m0)/1000). The quick tier is sampling; the thorough tier adds the exhaustive single-gap product (every start phase x every gap) and a carried-remainder family (`exhaustive_phase_gap_sweep` in the evidence). A clean run is evidence, not proof.',
+        'text': 'Seeded search over polling schedules (gaps 1..64536 ms and stalls beyond), start phases, 2^16/2^32 counter wrap, user sets (same value, sentinel), settings that arrive as answers of a reference clock, reboots with a durable RTC; every reading of the real SystemClockLoop is compared with the interval-anchor reference clock T+floor((m-m0)/1000). The quick tier is sampling; the thorough tier adds the exhaustive single-gap product (every start phase x every gap) and a carried-remainder family (`exhaustive_phase_gap_sweep` in the evidence). A clean run is evidence, not proof.',
         'note': 'Trusted: the host shim (Print/pgmspace/AceCommon stubs), clang, the A.1 model in sim/clock.h. unsigned long is 64-bit on this host; only the low 16 bits matter to getNow() and they are fed exactly.',
         'design': '§5.C13, Appendix A.1',
     },
@@ -59,7 +59,7 @@ CHECKS = {
     },
     'C20': {
         'engine': 'detcompile',
-        'technique': 'deterministic simulation of the compiler\'s environment: tzcompiler.py re-run under seeded perturbations (hash seed, jumping clock, shuffled directory listings, pid, random, TZ, locale, umask, cwd, environment variables, stdio kind, stale outputs, an earlier compilation of another source by the same user) and byte comparison of all outputs',
+        'technique': 'deterministic simulation of the compiler\'s environment: tzcompiler.py re-run under seeded perturbations (hash seed, jumping clock, shuffled directory listings, pid, random, TZ, locale, umask, cwd, environment variables, stdio kind, stale outputs, an earlier compilation of another source by the same user, an earlier compilation in the same interpreter) and byte comparison of all outputs',
         'text': 'Decides clause 1 only ("compiling the same source twice produces identical files"): the real tzcompiler.py is run in fresh interpreters over a TZ source reconstructed from the zonedbx tables, for scope x language x action-set x year-range configurations, 7 configurations x 8 runs (quick) / 13 x 160 (thorough); run 0 of each configuration is the unperturbed control and every other run must equal it byte for byte (reason lists inside one comment compared as multisets). A difference is reported with the perturbation minimised to the dimensions that matter. Clauses 2-6 are relations between artifacts of one execution: not decided.',
         'note': 'Trusted: the perturbation shim (sitecustomize.py) really intercepts time/datetime (wall clock only; monotonic clocks keep running), os.listdir/os.scandir, os.getpid, random, host and user names, the CPU count and the completion order of pools; the reconstructed source stands in for the original TZ release.',
         'design': '§5.C20',
@@ -103,7 +103,7 @@ def main():
             {'name': 'pysim', 'path': 'pysim/', 'serves_properties': ['C08'],
              'kind_free_text': 'Python: seeded call histories on long-lived ZoneSpecifier instances vs fresh instances'},
             {'name': 'detcompile', 'path': 'detcompile/', 'serves_properties': ['C20'],
-             'kind_free_text': 'Python: tzcompiler.py re-run under seeded environment perturbations (hash seed, clock, listing order, cwd, locale, environment variables, stdio kind, CPU count, stale outputs, an earlier compilation of another source)'},
+             'kind_free_text': 'Python: tzcompiler.py re-run under seeded environment perturbations (hash seed, clock, listing order, cwd, locale, environment variables, stdio kind, CPU count, stale outputs, an earlier compilation of another source, being the second compilation of one interpreter)'},
             {'name': 'genm3', 'path': 'genm3/', 'serves_properties': ['C09'],
              'kind_free_text': 'C++ tool built per run: the real processors over every zone generated by the tree\'s own tzcompiler.py, pool high-water vs recorded size (ASan+UBSan)'},
             {'name': 'msanprobe', 'path': 'msan/', 'serves_properties': ['C09'],
